@@ -562,6 +562,42 @@ func (w *worker) run(i int, name string) {
 		c.Count("same_name_other_namespace_claims", 1)
 	}
 
+	// the XR stops asking for a secret: the user removes spec.writeConnectionSecretToRef and deletes
+	// the secret. The next XR reconcile opens with a read served by an XR cache that has not seen
+	// the edit yet (everything after it is current). "Written only if the XR asks for one": the
+	// secret must not come back.
+	if s := world.GetObj(xrSecretKey); t.Wants && s != nil && i%2 == 0 {
+		if ctl := sim.ControllerOf(s); ctl != nil && sim.Str(ctl, "uid") == xrUID {
+			asOf := world.RV()
+			u := &unstructured.Unstructured{Object: world.GetObj(xrKey)}
+			unstructured.RemoveNestedField(u.Object, "spec", "writeConnectionSecretToRef")
+			if err := user.Update(ctx, u); err == nil {
+				_ = user.Delete(ctx, &unstructured.Unstructured{Object: s})
+				staleRead := true
+				lc := world.LaggingClient("xr", func(gk schema.GroupKind) (int64, bool) {
+					if staleRead && gk.Kind == "XThing" {
+						staleRead = false
+						return -asOf, true
+					}
+					return 0, false
+				})
+				xs := xrk.NewXREnvSplit(world, ce.XRD, lc, world.Client("xr"))
+				from3 := world.LogLen()
+				for k := 0; k < 3; k++ {
+					_, _, _ = xs.Reconcile("static-xr")
+				}
+				xs.CloseConns()
+				c.Count("xr_secret_ref_removed_behind_cache_cases", 1)
+				for _, e := range world.Log(from3) {
+					if e.Actor == "xr" && e.Key.Kind == "Secret" && e.IsWrite() && !e.DryRun && e.Changed {
+						fail("xr-secret-written-though-no-longer-requested", "the XR no longer has a writeConnectionSecretToRef (removed by the user, secret deleted), yet the XR controller wrote a secret: "+e.Short())
+						break
+					}
+				}
+			}
+		}
+	}
+
 	filtered := false
 	for k := range expected {
 		if !allowed(k) {
@@ -807,6 +843,7 @@ func main() {
 	c.Rule += " Shared controller: three XRs of the kind served in turn by ONE reconciler (one fetcher, one publisher); only some composed resources have published a connection secret; each XR secret holds only its own resource's values. A claim with the bound claim's name in another namespace referencing the XR gets no secret and does not rebind it. Provenance cases (both composers): XR details derived from the composed resources' connection secrets; a referenced resource is re-parented in place or recreated by another owner behind the XR controller's lagging cache and points at that owner's secret; neither the XR's nor the claim's secret may hold that owner's values."
 	c.Rule += " " + "The shared reconciler also serves an XR of an edited composition (secret keys of its own revision only)."
 	c.Rule += " " + "A foreign-controlled XR secret may appear behind the controllers' Secret cache."
+	c.Rule += " " + "Half of the cases end with the user removing the XR's writeConnectionSecretToRef and deleting the secret, the next XR reconcile opening with a stale XR read: no secret may be written."
 	c.Rule += " " + "XRD edit histories: the XRD author edits connectionSecretKeys 1-3 times while the real definition reconciler manages the XR controller; secrets published afterwards (a new XR; an existing XR whose secret was deleted) hold only keys the XRD allows now."
 	c.Rule += " " + "The XR secret may lose its owner references (uncontrolled, connection-typed) before the claim copies; composed resources of several XRs whose secrets share one name in different namespaces."
 	c.Rule += " " + "A claim reconcile over a stale Secret cache (no rewrite gets through); rotating details republished right after the claim's copy."
